@@ -12,9 +12,9 @@ OL_FORMULAS = {
         invariants=["C13_IndexesOneToOne", "C13_StakeInBounds", "C13_StakeMatchesDelegation", "C13_NoValueCreated",
                     "C13_PenaltyBounded", "C13_NothingLeftBehind"],
         properties=["C13_OnlyApprovedBond", "C13_PenaltyOnce", "C13_RecoverableOnce", "C13_RemovalNotBlocked",
-                    "C13_ConfirmerNeverSlashed", "C13_OfflineOnlyForCause"],
+                    "C13_ConfirmerNeverSlashed", "C13_OfflineOnlyForCause", "C13_JoinedOnActivation"],
         p_properties=["P_C13_OnlyApprovedBond", "P_C13_PenaltyOnce", "P_C13_RecoverableOnce", "P_C13_RemovalNotBlocked",
-                      "P_C13_ConfirmerNeverSlashed", "P_C13_OfflineOnlyForCause"]),
+                      "P_C13_ConfirmerNeverSlashed", "P_C13_OfflineOnlyForCause", "P_C13_JoinedOnActivation"]),
 }
 
 O2, O3 = ["o1", "o2"], ["o1", "o2", "o3"]
@@ -24,14 +24,18 @@ V2 = ["v1", "v2"]
 THR, MULT = 2, 4   # stake bounds [2, 8] coins (1 coin = 1 power unit = 1e20 base units)
 
 
-def ol_consts(oracles, bridgers, bondvals, bonds, govs, mops, time, rewards=0, slashop=True, objects=True):
-    return dict(Oracle=oracles, Bridger=bridgers, Ext=E2, Val=V2, BondVals=bondvals, Thr=THR, Mult=MULT,
+def ol_consts(oracles, bridgers, bondvals, bonds, govs, mops, time, rewards=0, slashop=True, objects=True, ages=None, ops=None, vals=V2):
+    """mops bounds AddDelegate/ReDelegate/EditBridger/WithdrawReward/Slash, ages bounds ObjectAges, ops bounds their sum
+    (default: one shared budget of `mops` operations)."""
+    ages = mops if ages is None else ages
+    ops = max(mops, ages) if ops is None else ops
+    return dict(Oracle=oracles, Bridger=bridgers, Ext=E2, Val=vals, BondVals=bondvals, Thr=THR, Mult=MULT,
                 WithRewards=rewards > 0, WithSlashOp=slashop, WithObjects=objects,
-                MaxBonds=bonds, MaxGovs=govs, MaxMops=mops, MaxTime=time, MaxRewards=rewards)
+                MaxBonds=bonds, MaxGovs=govs, MaxMops=mops, MaxAges=ages, MaxOps=ops, MaxTime=time, MaxRewards=rewards)
 
 
-def ol_harness(chain, oracles, bridgers):
-    return dict(chain=chain, Oracle=oracles, Bridger=bridgers, Ext=E2, Val=V2, Thr=THR, Mult=MULT)
+def ol_harness(chain, oracles, bridgers, vals=V2):
+    return dict(chain=chain, Oracle=oracles, Bridger=bridgers, Ext=E2, Val=vals, Thr=THR, Mult=MULT)
 
 
 QUICK_AMTS = {"BondAmts": "BondQuick", "AddAmts": "AddQuick"}
@@ -41,6 +45,8 @@ DEV_AMTS = {"BondAmts": "BondDev", "AddAmts": "AddDev"}
 OL_MC = [
     dict(name="mcdev", tiers=["dev"], consts=ol_consts(O2, B2, ["v1"], 2, 2, 1, 1), overrides=DEV_AMTS, timeout=300),
     dict(name="mc2", tiers=["quick"], consts=ol_consts(O2, B2, ["v1"], 2, 2, 2, 1), overrides=QUICK_AMTS, timeout=600),
+    dict(name="mc2join", tiers=["quick", "thorough"], consts=ol_consts(O2, B2, ["v1"], 2, 2, 1, 0, slashop=False, ages=2, ops=3, vals=["v1"]),
+         overrides=DEV_AMTS, timeout=600),
     dict(name="mc2deep", tiers=["thorough"], consts=ol_consts(O2, B2, V2, 3, 3, 2, 2), overrides=QUICK_AMTS, timeout=1500),
     dict(name="mc2full", tiers=["thorough"], consts=ol_consts(O2, B2, V2, 2, 2, 2, 1), overrides=FULL_AMTS, timeout=1500),
     dict(name="mc2rew", tiers=["thorough"], consts=ol_consts(O2, B2, ["v1"], 2, 2, 2, 1, rewards=2, slashop=False),
@@ -52,6 +58,12 @@ OL_GEN = [
          harness=[ol_harness("eth", O2, B2)], shards=8, rej_sample=2, timeout=600),
     dict(name="gen2", tiers=["quick"], consts=ol_consts(O2, B2, ["v1"], 2, 2, 1, 1), overrides=QUICK_AMTS,
          harness=[ol_harness("eth", O2, B2)], shards=14, rej_sample=2, timeout=600),
+    # (re)joining: bond, bond, governance removal, a request created and aged while the oracle is away, re-admission,
+    # AddDelegate, the next request ages: the re-admitted oracle answers only for requests created after it came back
+    dict(name="gen2join", tiers=["quick", "thorough"],
+         consts=ol_consts(O2, B2, ["v1"], 2, 2, 1, 0, slashop=False, ages=2, ops=3, vals=["v1"]), overrides=DEV_AMTS,
+         harness=[ol_harness("eth", O2, B2, vals=["v1"])], shards=14, rej_sample=1, timeout=600,
+         may_never_succeed=("Unbond", "ReDelegate", "WithdrawReward")),   # no TimePasses, one validator in this configuration
     # every operation of the alphabet (accepted or not) in every state, both validators, all amounts
     dict(name="gen2full", tiers=["thorough"], consts=ol_consts(O2, B2, V2, 2, 2, 1, 1), overrides=FULL_AMTS,
          harness=[ol_harness("eth", O2, B2)], shards=16, rej_sample=0, timeout=1500),
